@@ -800,6 +800,10 @@ func genC05(g *G) {
 			g.c05PredBatch()
 			continue
 		}
+		if r.Intn(40) == 0 {
+			g.c05Lens()
+			continue
+		}
 		cfg := g.c05Config()
 		minL, _, _ := cfg.eff()
 		kind := c05Kinds[r.Intn(len(c05Kinds))]
@@ -1126,6 +1130,81 @@ func (g *G) c05PredBatch() {
 			for _, nb := range s2.VerifCellIDFromPoint(v).VertexNeighbors(minI(lvl, 29)) {
 				g.emitPred("rect", params, nb)
 			}
+		}
+	}
+}
+
+// ---------------------------------------------------------------- lens: a rectangle dipping into the bulge of a cell edge
+
+// c05Lens: the edges of a cell are great-circle arcs, which bulge towards the nearer pole relative to the circle of
+// latitude through their endpoints.  A rectangle whose pole-far latitude edge lies INSIDE that bulge, and whose
+// longitude range lies inside the edge's, meets the cell in a lens bounded by one cell edge and one rectangle edge:
+// neither region contains a vertex or the centre of the other, so only the latitude-edge crossing test of
+// Rect.IntersectsCell can see the intersection (finding D56).  The sample point is the middle of the lens.
+// Bulges lower than 1e-9 rad are skipped (the float tests of the library are not exact there).
+func (g *G) c05Lens() {
+	r := g.rng
+	lvl := r.Intn(11)
+	id := s2.VerifCellIDFromPoint(g.c05Center()).Parent(lvl)
+	cell := s2.CellFromCellID(id)
+	for k := 0; k < 4 && g.count < g.n; k++ {
+		a, b := cell.Vertex(k), cell.Vertex((k+1)&3)
+		n := a.Cross(b.Vector).Normalize()
+		m := r3.Vector{X: 0, Y: 0, Z: 1}.Sub(n.Mul(n.Z))
+		if m.Norm() < 1e-3 {
+			continue
+		}
+		m = m.Normalize()
+		if !(a.Cross(m).Dot(n) > 1e-6 && m.Cross(b.Vector).Dot(n) > 1e-6) {
+			m = m.Mul(-1)
+			if !(a.Cross(m).Dot(n) > 1e-6 && m.Cross(b.Vector).Dot(n) > 1e-6) {
+				continue // the great circle's extreme latitude is not inside this edge
+			}
+		}
+		north := m.Z > 0
+		if (north && n.Z >= 0) || (!north && n.Z <= 0) {
+			continue // the edge bulges into the cell
+		}
+		apex := s2.LatLngFromPoint(s2.Point{Vector: m})
+		la, lb := s2.LatLngFromPoint(a).Lat.Radians(), s2.LatLngFromPoint(b).Lat.Radians()
+		apexLat := math.Abs(apex.Lat.Radians())
+		sg := 1.0
+		if !north {
+			sg = -1
+		}
+		endLat := math.Max(0, math.Max(sg*la, sg*lb))
+		bulge := apexLat - endLat
+		if bulge < 1e-9 || apexLat > 1.5 {
+			continue
+		}
+		f := 0.15 + 0.7*r.Float()
+		near := endLat + f*bulge // the rectangle's edge inside the bulge
+		far := math.Min(math.Pi/2, near+bulge*[]float64{0.5, 2, 30}[r.Intn(3)]+[]float64{0, 1e-3, 0.2}[r.Intn(3)])
+		spanLng := math.Abs(math.Remainder(s2.LatLngFromPoint(a).Lng.Radians()-s2.LatLngFromPoint(b).Lng.Radians(), 2*math.Pi))
+		dl := spanLng * []float64{0.02, 0.1, 0.3, 0.45, 0.7}[r.Intn(5)]
+		sgn := 1.0
+		if !north {
+			sgn = -1
+		}
+		lo, hi := sgn*near, sgn*far
+		if lo > hi {
+			lo, hi = hi, lo
+		}
+		lng0 := apex.Lng.Radians() + (r.Float()*2-1)*0.3*dl
+		rect := s2.Rect{Lat: r1.Interval{Lo: lo, Hi: hi},
+			Lng: s1.IntervalFromEndpoints(math.Remainder(lng0-dl, 2*math.Pi), math.Remainder(lng0+dl, 2*math.Pi))}
+		if !rect.IsValid() || rect.IsEmpty() {
+			continue
+		}
+		mid := s2.PointFromLatLng(s2.LatLng{Lat: s1.Angle(sgn * (near + apexLat) / 2), Lng: apex.Lng})
+		params := rectParams(rect)
+		g.emitPredPts("rect", params, id, []s2.Point{mid})
+		for _, nb := range id.EdgeNeighbors() {
+			g.emitPredPts("rect", params, nb, []s2.Point{mid})
+		}
+		if g.count < g.n && rect.ContainsPoint(mid) && cell.ContainsPoint(mid) {
+			g.emit("cov", "rect", params, is(lvl), is(lvl), "1", is(4+r.Intn(12)), "CF", c5Pts([]s2.Point{mid}))
+			g.emit("cov", "rect", params, "0", is(lvl), "1", is(1+r.Intn(6)), "CF", c5Pts([]s2.Point{mid}))
 		}
 	}
 }
